@@ -98,4 +98,57 @@ theorem ext_getD {l1 l2 : List Nat} (hl : l1.length = l2.length)
   simpa [List.getD_eq_getElem?_getD, h1, h2] using this
 
 
+namespace Chain
+/-- the pointer reached after `j` steps from the head of a chain of `n` nodes -/
+def ptrAt (n j : Nat) : Ptr := if j < n then some j else none
+
+theorem ofList_head_ptrAt (xs : List Nat) : (ofList xs).head = ptrAt xs.length 0 := by
+  cases xs <;> simp [ofList, ptrAt]
+theorem next_ptrAt (n j : Nat) (h : j < n) : Ptr.next n (ptrAt n j) = ptrAt n (j + 1) := by
+  simp [ptrAt, h, Ptr.next]
+theorem ptrAt_lt (n j : Nat) (h : j < n) : ptrAt n j = some j := by simp [ptrAt, h]
+
+theorem drop_eq_getD_cons (xs : List Nat) (j : Nat) (h : j < xs.length) :
+    xs.drop j = xs.getD j 0 :: xs.drop (j + 1) := by
+  rw [List.drop_eq_getElem_cons h]; simp [h]
+
+theorem collect_ofList (xs : List Nat) (m : Mem) : ∀ (k j : Nat), j + k ≤ xs.length →
+    collect (ofList xs) k (ptrAt xs.length j) m = ((xs.drop j).take k, m)
+  | 0, j, _ => by simp [collect]
+  | k + 1, j, h => by
+    have hj : j < xs.length := by omega
+    simp only [collect, ofList_nodes]
+    rw [next_ptrAt _ _ hj, collect_ofList xs _ k (j + 1) (by omega)]
+    rw [ptrAt_lt _ _ hj]
+    simp only [Ptr.valid, hj, decide_true, Mem.check_true, data_some, ofList_nodes]
+    rw [drop_eq_getD_cons xs j hj]; simp
+end Chain
+
+namespace Chain
+theorem writeBack_spec (n : Nat) (vals : List Nat) (m : Mem) : ∀ (k i : Nat) (l : Chain),
+    l.nodes.length = n → i + k ≤ n → n ≤ vals.length →
+    ∃ l', writeBack k i (ptrAt n i) vals l m = (l', m) ∧ l'.nodes.length = n ∧
+      (∀ j, j < n → l'.nodes.getD j 0 = if i ≤ j ∧ j < i + k then vals.getD j 0 else l.nodes.getD j 0) ∧
+      l'.size = l.size ∧ l'.head = l.head ∧ l'.tail = l.tail
+  | 0, i, l, hn, _, _ => ⟨l, rfl, hn, by intro j _; rw [if_neg (by omega)], rfl, rfl, rfl⟩
+  | k + 1, i, l, hn, hk, hv => by
+    have hi : i < n := by omega
+    simp only [writeBack, hn]
+    rw [next_ptrAt _ _ hi, ptrAt_lt _ _ hi]
+    have hiv : i < vals.length := by omega
+    simp only [Ptr.valid, hi, hiv, decide_true, Bool.and_self, Mem.check_true]
+    obtain ⟨l', e, h1, h2, h3, h4, h5⟩ := writeBack_spec n vals m k (i + 1) (l.setData (some i) (vals.getD i 0))
+      (by simp [Chain.setData, hn]) (by omega) hv
+    refine ⟨l', e, h1, ?_, h3, h4, h5⟩
+    intro j hj
+    rw [h2 j hj]
+    simp only [Chain.setData, Ptr.pos, Option.getD_some, getD_set, hn]
+    by_cases c1 : i + 1 ≤ j ∧ j < i + 1 + k
+    · rw [if_pos c1, if_pos (by omega)]
+    · rw [if_neg c1]
+      by_cases c2 : i = j
+      · subst c2; rw [if_pos ⟨rfl, hi⟩, if_pos (by omega)]
+      · rw [if_neg (by omega), if_neg (by omega)]
+end Chain
+
 end CC
